@@ -62,6 +62,13 @@ def sympy_to_inline_js(expr: sympy.Expr) -> str:
 
 def sympy_to_inline_rust(expr: sympy.Expr) -> str:
     """Create rust code from sympy expression."""
+    # Rust does not mix integer literals into f64 arithmetic (e.g. `2*x`)
+    expr = cast(
+        sympy.Expr,
+        expr.xreplace(
+            {i: sympy.Float(i) for i in expr.atoms(sympy.Integer) if abs(i) != 1}
+        ),
+    )
     return cast(str, rust_code(expr, full_prec=False))
 
 
